@@ -151,6 +151,49 @@ impl TM for Imp {
     fn m_where(&self, a: u64) -> u64 { self.step(56, 51, a) }
     fn m_where_generic_bound(&mut self, a: u64) -> u64 { self.step(57, 53, a) }
 }
+/// `#[skip_func]` between exported methods (no vtable slot: the trait's default body runs on the
+/// opaque object and calls the exported neighbours), and a user-wrapped associated return type
+/// with a conversion closure
+#[cglue_trait]
+pub trait TK {
+    #[wrap_with(u64)]
+    #[return_wrap(|ret| Into::<u64>::into(ret).rotate_left(7) ^ 0x5A)]
+    type R: Into<u64>;
+    fn k_b(&self, a: u64) -> u64;
+    #[skip_func]
+    fn k_skip(&self, a: u64) -> u64 { self.k_b(a ^ 1) ^ self.k_a(a) }
+    fn k_a(&self, a: u64) -> u64;
+    fn k_get(&self, a: u64) -> Self::R;
+    fn k_c(&self, a: u64) -> u64;
+}
+impl TK for Imp {
+    type R = u32;
+    fn k_b(&self, a: u64) -> u64 { self.step(70, 3, a) }
+    fn k_a(&self, a: u64) -> u64 { self.step(71, 5, a ^ 3) }
+    fn k_get(&self, a: u64) -> u32 { self.step(72, 7, a) as u32 }
+    fn k_c(&self, a: u64) -> u64 { self.step(73, 9, a ^ 5) }
+}
+/// user-declared external trait: the real trait lives elsewhere, `#[cglue_trait_ext]` only
+/// generates the glue from a repeated definition
+pub mod extdefs {
+    pub trait TX {
+        fn x_b(&self, a: u64) -> u64;
+        fn x_a(&mut self, a: u64) -> u64;
+        fn x_c(&self, a: u64) -> u64;
+    }
+}
+pub use extdefs::TX;
+#[cglue_trait_ext]
+pub trait TX {
+    fn x_b(&self, a: u64) -> u64;
+    fn x_a(&mut self, a: u64) -> u64;
+    fn x_c(&self, a: u64) -> u64;
+}
+impl TX for Imp {
+    fn x_b(&self, a: u64) -> u64 { self.step(80, 3, a) }
+    fn x_a(&mut self, a: u64) -> u64 { self.id = self.id.wrapping_add(3); self.step(81, 5, a) }
+    fn x_c(&self, a: u64) -> u64 { self.step(82, 7, a ^ 9) }
+}
 /// builtin external trait
 impl AsRef<u64> for Imp { fn as_ref(&self) -> &u64 { let _ = self.step(60, 47, 0); &self.id } }
 
